@@ -21,7 +21,7 @@ def run(pid, tier, seed, replay=None):
         exe = vlib.build_driver("table_driver", "asan")
         log = os.path.join(wd, "permute.ndjson")
         maxdim = 6
-        rc, so, err, _ = vlib.run_driver(exe, ["permute", str(maxdim), str(seed), str(10 if tier == "quick" else 200), log], timeout=1500)
+        rc, so, err, _ = vlib.run_driver(exe, ["permute", str(maxdim), str(seed), str(40 if tier == "quick" else 200), log], timeout=1500)
         if rc != 0:
             ck.violation({"class": "crash"}, {"what": "permute driver died", "stderr": err[-3000:]})
             return ck.finish()
